@@ -28,6 +28,9 @@ def check(chk, thorough=False):
     chk.run('C19.i', 'R-PAIR', 'a bundle is reported deleted or delivered / forwarded, never both: wherever delete is recorded, the action it replaces is withdrawn first', lambda ob: c19i(tree, ob), floor=5)
     chk.run('C19.j', 'R-FLOW', '"forwarded" is recorded only for a bundle that was handed to a convergence layer (or waits for its session): no sender closure drops it (= C11.h)', lambda ob: __import__('sa.props.c11', fromlist=['c11h']).c11h(tree, ob), floor=6)
     chk.run('C19.k', 'R-TRUTH', 'a status time that was not requested stays absent: the time field maps "no value" to "no value", not to DTN time zero', lambda ob: c19k(tree, ob), floor=1)
+    chk.run('C19.l', 'R-GUARD', '"forwarded" is reported for a bundle that was sent: no TX step other than fragmentation returns a truthy result that stops send_bundle() (= C05.l)', lambda ob: __import__('sa.props.common', fromlist=['tx_steps_discipline']).tx_steps_discipline(tree, ob), floor=4)
+    chk.run('C19.m', 'R-ESCAPE', 'the report opportunity is reached on both arms of the forwarder: log_name(), called on the success arm AND inside the failure arm, only formats the destination and the identity (nothing that can raise for a container whose payload data was taken out by fragmentation)', lambda ob: c19m(tree, ob), floor=2)
+    chk.run('C19.n', 'R-PAIR', 'every bundle put on the forwarding queue gets its own idle call of the forwarder, which handles one bundle per call', lambda ob: c19n(tree, ob), floor=2)
     chk.run('C19.f', 'R-TYPE', 'the reported reason is a reason code (= C12.f)', lambda ob: c12f(tree, ob), floor=2)
     chk.run('C19.g', 'R-WHO', 'the forwarding path does not rewrite report-to / flags / source / creation timestamp of the subject before its report is generated (= C11.a restricted to report-relevant fields)', lambda ob: c11a(tree, ob, only=('report_to', 'bundle_flags', 'source', 'create_ts')), floor=1)
 
@@ -369,3 +372,48 @@ def c19k(tree, ob):
         ob.site(rel, m, 'any2i(None) is None')
     else:
         ob.violate(rel, 'DtnTimeField.any2i', 'any2i(None)', 'an absent time is converted into a value (DTN time 0): status items whose time was not requested are sent as [true, 0] instead of [true]', out.node or m)
+
+
+
+def c19m(tree, ob):
+    UTIL = 'bp/util.py'
+    fv = FuncView(tree, UTIL, 'BundleContainer.log_name')
+    allowed = ('format', 'bundle_ident', 'str', 'repr')
+    bad = [c for c in calls_in(fv.func) if (c.func.attr if isinstance(c.func, ast.Attribute) else (call_name(c) or '')) not in allowed]
+    subs = [n for n in walk_local(fv.func) if isinstance(n, ast.Subscript)]
+    if bad or subs:
+        ob.violate(UTIL, fv.qual, src((bad or subs)[0])[:60], 'log_name() computes more than the destination and the identity: where that raises (the length of payload data that fragmentation has taken '
+                   'out is len(None)) it raises on the success arm of _do_fwd and again inside its failure arm, _finish_bundle() is never reached and a bundle forwarded as fragments gets no report', (bad or subs)[0])
+    else:
+        ob.site(UTIL, fv.func, 'log_name() formats destination and identity only')
+    fa = FuncView(tree, AGENT, 'Agent._do_fwd')
+    fin = one(method_calls(fa.func, '_finish_bundle', 'self'), '_finish_bundle in _do_fwd', ob)
+    if enclosing(fin, (ast.Try, ast.If, ast.For, ast.While)) is None:
+        ob.site(AGENT, fin, '_finish_bundle() follows the try of the forwarder unconditionally')
+    else:
+        ob.violate(AGENT, fa.qual, src(fin), 'the report opportunity of the forwarder is conditional', fin)
+
+
+def c19n(tree, ob):
+    fr = FuncView(tree, AGENT, 'Agent.recv_bundle')
+    apps = [c for c in calls_in(fr.func) if pm('self._fwd_queue.append($c)', c) is not None]
+    ob.require(apps, 'forwarding queue append in recv_bundle')
+    from ..core import parent, enclosing_stmt
+    for a in apps:
+        st = enclosing_stmt(a)
+        par = parent(st)
+        sibs = []
+        for fld in ('body', 'orelse', 'finalbody'):
+            blk = getattr(par, fld, None)
+            if isinstance(blk, list) and st in blk:
+                sibs = blk
+        idle = [x for x in sibs if isinstance(x, ast.Expr) and isinstance(x.value, ast.Call) and (call_name(x.value) or '') == 'glib.idle_add' and [src(y) for y in x.value.args] == ['self._do_fwd']]
+        if idle:
+            ob.site(AGENT, a, 'queue append and idle call side by side')
+        else:
+            ob.violate(AGENT, fr.qual, src(a) + '  (no unconditional glib.idle_add(self._do_fwd) beside it)', 'a bundle is put on the forwarding queue without an idle call of its own: _do_fwd() handles one bundle and '
+                       'returns False, so a bundle that arrives while another is queued stays there -- not forwarded, never reported', a)
+    fd = FuncView(tree, AGENT, 'Agent._do_fwd')
+    pops = [c for c in calls_in(fd.func) if pm('self._fwd_queue.pop(0)', c) is not None]
+    if len(pops) == 1 and enclosing(pops[0], (ast.For, ast.While)) is None:
+        ob.site(AGENT, pops[0], '_do_fwd() takes one bundle per call')
